@@ -33,6 +33,8 @@ pub enum PStep {
     GScc,
     GDot,
     GSerde(bool),
+    /// deserialise a hand-made document derived from the current graph: (cbor?, perturbation 0..6)
+    GDeserDoc(bool, u8),
     /// search + connect through the result handle
     ConnectViaSearch(u16, u16, EV),
     /// an edge loop / traversal closure over node u that mutates the graph while it runs
@@ -195,6 +197,47 @@ pub fn run_prog<F: Flavour>(p: &Prog, st: Option<&mut Stats>) -> Vec<String> {
                     let mut lines: Vec<String> = F::g_to_dot(&g).lines().map(|l| l.trim().to_string()).collect();
                     lines.sort();
                     format!("dot {:?}", lines)
+                }
+                PStep::GDeserDoc(cbor, salt) => {
+                    // document = the current nodes and edges as plain tuples, perturbed the way a hand-edited file would be
+                    let gc = current_graph::<F>(&nodes);
+                    let mut ns: Vec<(Key, i32)> = (0..gc.n).map(|i| (i as Key, gc.prio[i])).collect();
+                    let mut es: Vec<(Key, Key, EV)> = gc.edges.clone();
+                    match salt % 7 {
+                        1 => {
+                            // a key declared twice with different values (at the end)
+                            let first = ns[0];
+                            ns.push((first.0, first.1 + 100));
+                        }
+                        2 => {
+                            let last = *ns.last().unwrap();
+                            ns.insert(0, (last.0, last.1 + 100));
+                        }
+                        3 => es.push((0, 60000, 9)),
+                        4 => ns.reverse(),
+                        5 => es.reverse(),
+                        6 => {
+                            let dup = ns.clone();
+                            ns.extend(dup.into_iter().map(|(k, v)| (k, v - 7)));
+                        }
+                        _ => {}
+                    }
+                    let doc = (ns, es);
+                    let back = if *cbor { serde_cbor::to_vec(&doc).map_err(|e| e.to_string()).and_then(|b| F::de_cbor(&b)) } else { serde_json::to_string(&doc).map_err(|e| e.to_string()).and_then(|t| F::de_json(t.as_bytes())) };
+                    match back {
+                        Err(_) => format!("deser-doc cbor={} salt={} -> Err", cbor, salt % 7),
+                        Ok(h) => {
+                            let mut ks: Vec<(Key, i32, Vec<(Key, EV)>)> = F::g_iter(&h).iter().map(|(k, x)| (*k, F::prio(x), {
+                                let mut l = F::out_list(x);
+                                if !F::DIRECTED {
+                                    l.sort();
+                                }
+                                l
+                            })).collect();
+                            ks.sort();
+                            format!("deser-doc cbor={} salt={} -> {:?}", cbor, salt % 7, ks)
+                        }
+                    }
                 }
                 PStep::GSerde(cbor) => {
                     // serialising a container with edges to non-members is outside C12/C15 (the result depends on container order)
@@ -424,6 +467,7 @@ fn step_strategy() -> impl Strategy<Value = PStep> {
         1 => Just(PStep::GScc),
         1 => Just(PStep::GDot),
         1 => any::<bool>().prop_map(PStep::GSerde),
+        1 => (any::<bool>(), 0u8..7).prop_map(|(c, s)| PStep::GDeserDoc(c, s)),
         1 => (r(), r(), 0u32..4).prop_map(|(a, b, e)| PStep::ConnectViaSearch(a, b, e)),
         2 => (r(), 0u8..5).prop_map(|(u, m)| PStep::LoopMutate(u, m)),
     ]
@@ -488,7 +532,7 @@ pub fn run(ctx: &mut Ctx) {
                     steps.push(PStep::Search(if code % 2 == 0 { 0 } else { 40000 }, cell.clone(), mk, (code % 4) as u8));
                 }
             }
-            steps.extend([PStep::GInsert(0), PStep::GInsertNew(0, 1), PStep::GInsert(40000), PStep::GGet(0), PStep::GGet(30000), PStep::GViews, PStep::GScc, PStep::GDot, PStep::GSerde(false), PStep::GSerde(true), PStep::Compare(0, 40000), PStep::CompareEdges(0, 40000), PStep::LoopMutate(0, (code % 5) as u8), PStep::LoopMutate(40000, ((code / 5) % 5) as u8), PStep::Edge(OpKind::Isolate, 0, 0, 0), PStep::GViews]);
+            steps.extend([PStep::GInsert(0), PStep::GInsertNew(0, 1), PStep::GInsert(40000), PStep::GGet(0), PStep::GGet(30000), PStep::GViews, PStep::GScc, PStep::GDot, PStep::GSerde(false), PStep::GSerde(true), PStep::GDeserDoc(code % 2 == 0, (code % 7) as u8), PStep::Compare(0, 40000), PStep::CompareEdges(0, 40000), PStep::LoopMutate(0, (code % 5) as u8), PStep::LoopMutate(40000, ((code / 5) % 5) as u8), PStep::Edge(OpKind::Isolate, 0, 0, 0), PStep::GViews]);
             let p = Prog { n: 2, prio: vec![1, 0], steps };
             st.class("programs.enumerated");
             if code == 77 {
